@@ -16,4 +16,30 @@ PROPS = {
                       "sdkmath.Int is modelled as unbounded Nat (the harness stays below its 2^256 cap)"],
         assumptions=["snapshot total = sum of shares (createNewSnapshot builds it so; C10 proves it for the snapshot model)"],
     ),
+    "C01": dict(
+        lean_modules=["PalomaModel.Props.C01"],
+        harness_test="TestBridge", env={"VERIF_PROP": "C01"},
+        n_quick=120, n_thorough=1500, thorough_seeds=8, timeout_quick=900,
+        spec_ops=[],
+        rule="per case: fresh skyway keeper fixture (5 validators, 3 users, 2 bridged tokens); 40 ops drawn from send / cancel / direct batch build / "
+             "fully-voted executed-batch and deposit claims / gas-estimate submissions / tax+limit governance / end-blocks (every-50th-height builds, tally, "
+             "estimate election, 10-minute timeouts); 22% of ops carry a fault (the n-th call, n in 1..3, of one collaborator class: chain-info, relayer pick, "
+             "remote-address lookup, bank lock/send/pool/mint/burn) injected through the verif hook; distinct = distinct op text of the case; non-trivial = at least one accepted op",
+        trusted_base=[SDK_TRUST, "claims are modelled as fully voted (quorum is C02's subject); IBC forwarding is not on the pinned deposit path"],
+        assumptions=["every message runs on a cached store committed only on success (baseapp per-message atomicity, reproduced by the harness)"],
+    ),
+    "C15": dict(
+        lean_modules=["PalomaModel.Props.C15"],
+        harness_test="TestBridge", env={"VERIF_PROP": "C15"},
+        n_quick=120, n_thorough=1500, thorough_seeds=8, timeout_quick=900,
+        spec_ops=["send", "cancel"],
+        rule="same generator as C01 with tax/limit governance three times as frequent; rates rendered as fraction, decimal and exponent strings; "
+             "amounts 0..1000, 2^64..2^214 and 2^256-k; heights moved to window start+period-1/+0/+1 for all four limit periods; distinct = distinct op text; non-trivial = at least one accepted op",
+        trusted_base=[SDK_TRUST, "big.Rat parsing is validated by correspondence (the model receives numerator/denominator)"],
+        assumptions=["limit setting unchanged within a window for the window-total clause (governance may lower a limit below current usage)"],
+    ),
 }
+
+LEVEL_TEXT = ("Lean 4 theorems (all inputs / histories / fault points, no bounds) about an executable model of the code; the model is tied to the Go code on "
+              "every run by differential correspondence on PRNG-derived inputs plus property monitors evaluated on the real implementation")
+NOT_APPLICABLE = {}
